@@ -9,7 +9,10 @@ LEAN_MODULE = "BluetoeModel.Cccd"
 LEAN_DIRS = ["BluetoeModel/Cccd", "Driver/Cccd"]
 DRIVER = "drv_cccd"
 HARNESS_DESC = "harness/cccd.cpp (real bluetoe::server<> types with 1/4/5/9 CCCDs, with and without priorities, 3 connections)"
-HARNESS = dict(src="harness/cccd.cpp")
+# -g0: the debug information of these template heavy servers triples the compile time; the crash
+# classification only needs the sanitizer's error kind
+HARNESS = dict(src="harness/cccd.cpp",
+               flags=["-O0", "-g0", "-fsanitize=address,undefined", "-fno-sanitize-recover=all", "-fno-omit-frame-pointer", "-w"])
 
 
 def chars(spec):
